@@ -158,6 +158,14 @@ PROPS = {
         "trusted_base": TB_COMMON + ["the f64 initial guess (taken from the code through a hook)"],
         "assumptions": ASSUME_COMMON,
     },
+    "C13": {
+        "rule": "every integer argument in -120..120 (quick) / -1000..1000 (thorough); 1..40-digit arguments with magnitudes 1e-60..max, both signs; arguments within a few units of k*ln(10) "
+                "(60..110 digits) where e^x crosses a power of ten; long digit strings; ordered pairs x < y for the two-ulp order check. Each result is judged against a rational enclosure of e^x "
+                "(scaling-and-squaring, Taylor partial sums with a remainder bound, outward-rounded fixed-point interval arithmetic at 45+ guard digits): strictly positive, exactly the "
+                "configured number of digits, within one unit of the last digit; and compared exactly with the model (series loop with impl_division).",
+        "trusted_base": TB_COMMON + ["the enclosure of e^x is an executable oracle whose derivation is stated in Spec/ExpEnclosure.lean; its soundness is not yet a Lean theorem"],
+        "assumptions": ASSUME_COMMON,
+    },
 }
 
 
